@@ -124,6 +124,11 @@ class SymEval:
                 b2[tbl.key.id] = V(e.slice)
                 return self.val(tbl.value, tat, b2, depth + 1)
             base, k = V(e.value), V(e.slice)
+            # a tuple literal indexed by a constant is that component
+            if base.startswith("(") and _balanced(base, 0) == len(base) and k.isdigit():
+                comps = _split_top(base[1:-1])
+                if int(k) < len(comps):
+                    return comps[int(k)]
             return _norm(f"idx({base},{k})")
         if isinstance(e, ast.Attribute):
             if e.attr == "nodes":
@@ -155,7 +160,11 @@ class SymEval:
                 return V(e.body)
             if t is False:
                 return V(e.orelse)
-            return f"ite({V(e.test)},{V(e.body)},{V(e.orelse)})"
+            tb_, fb_ = V(e.body), V(e.orelse)
+            # `X[1] if b else X[0]`  ==  X[b]   (a pair indexed by a truth value)
+            if tb_.startswith("idx(") and fb_.startswith("idx(") and tb_.endswith(",1)") and fb_.endswith(",0)") and tb_[:-3] == fb_[:-3]:
+                return f"{tb_[:-2]}{V(e.test)})"
+            return f"ite({V(e.test)},{tb_},{fb_})"
         if isinstance(e, ast.NamedExpr):
             return V(e.value)
         if isinstance(e, ast.Slice):
@@ -347,7 +356,14 @@ class SymEval:
                 el = f"{self.val(x.key, at2, b2)}:{self.val(x.value, at2, b2)}"
             else:
                 el = self.val(x.elt, at2, b2)
-            return [(el, cond)]
+            out_ = [(el, cond)]
+            # a list that starts as a comprehension and is extended afterwards (by statements that can run before `at`)
+            if isinstance(e, ast.Name) and x is not e:
+                for cn, el2, extra in self._appends(e.id):
+                    if at is not None and cn.id in self.fm.cfg.reach_avoiding(at2, [at]) | {at2.id}:
+                        c2 = self.cond(cn)
+                        out_.append((el2, logic.And(c2, extra) if extra is not None else c2))
+            return out_
         while isinstance(x, ast.Call) and isinstance(x.func, ast.Name) and x.func.id in ORDER_ONLY and len(x.args) == 1:
             x, at2 = self.fm.deref_at(x.args[0], at2)
             if isinstance(x, (ast.ListComp, ast.SetComp, ast.GeneratorExp)):
